@@ -195,7 +195,10 @@ pub fn gen_tx(r: &mut Rng, focus: Focus) -> tir::Tx {
     let mut inputs = vec![];
     for i in 0..n_in {
         let mut mk_ref = |r: &mut Rng| loop {
-            let rf = UtxoRef { txid: txid_pool(r.below(6)), index: r.below(3) as u32 };
+            // C08: outputs of one transaction whose indices differ in the number of digits (the
+            // ledger compares them as numbers)
+            let index = if focus == Focus::C08 { *r.pick(&[0u32, 1, 2, 2, 9, 10, 10, 11, 100, 255, 256, 65_536]) } else { r.below(3) as u32 };
+            let rf = UtxoRef { txid: txid_pool(r.below(if focus == Focus::C08 { 3 } else { 6 })), index };
             if used.insert((rf.txid.clone(), rf.index)) {
                 return rf;
             }
